@@ -23,6 +23,7 @@ INFO = {
     "marked dynamic, carrying that production and len(rhs) sub-results whose symbols are the RHS in order; no decision on "
     "a marked symbol/production that shows up in the result was hidden from the filter; a rejected reduction's production "
     "never appears in a returned tree; accept-all gives the result of the same parser without a filter (LR and GLR).  "
+    "The same on a grammar with a LAYOUT rule (layout skipped by the nested layout parser, N = 4).  "
     "Precedence filter: symbolic unbounded priorities p_i and associativities as in C06, all marks on, strategies off: "
     "LR and GLR results for every expression of a concrete list equal the operator-precedence reference under the symbolic "
     "ordering (which C06 ties to static priorities).",
@@ -39,11 +40,16 @@ MANIFEST = {
 }
 
 
-def grammar_text(k, pd, td):
+def grammar_text(k, pd, td, layout=False):
     alts = ["E op%d E%s" % (i, " {dynamic}" if pd[i] else "") for i in range(k)] + ["'n'"]
-    lines = ["E: " + " | ".join(alts) + ";", "terminals"]
+    lines = ["E: " + " | ".join(alts) + ";"]
+    if layout:  # layout skipped by the LAYOUT sub-parser instead of the ws characters
+        lines += ["LAYOUT: LayoutItem | LAYOUT LayoutItem | EMPTY;", "LayoutItem: SP | HASH;"]
+    lines.append("terminals")
     for i in range(k):
         lines.append("op%d: '%s'%s;" % (i, OPS[i], " {dynamic}" if td[i] else ""))
+    if layout:
+        lines += ["SP: ' ';", "HASH: '#';"]
     return "\n".join(lines)
 
 
@@ -58,6 +64,13 @@ def cases(tier, seed):
                     out.append({"name": "marks p=%s t=%s|%s|%s|N=%d" % ("".join(map(str, pd)), "".join(map(str, td)), mode, filt, N),
                                 "params": {"kind": "calls", "k": k, "pd": list(pd), "td": list(td), "mode": mode, "filter": filt, "N": N},
                                 "budget_s": 1500})
+    # the same with a LAYOUT rule: layout is skipped by a nested parser, which must not involve the filter
+    for pd, td in (((1, 0), (0, 1)), ((1, 1), (1, 1))):
+        for mode in ("lr", "glr"):
+            for filt in (("accept",) if tier == "quick" else ("accept", "reject0")):
+                out.append({"name": "marks p=%s t=%s|%s|%s|LAYOUT rule|N=4" % ("".join(map(str, pd)), "".join(map(str, td)), mode, filt),
+                            "params": {"kind": "calls", "k": 2, "pd": list(pd), "td": list(td), "mode": mode, "filter": filt, "N": 4, "layout": True},
+                            "budget_s": 1500})
     if tier != "quick":
         import random
 
@@ -105,7 +118,7 @@ def build(params, symbolic):
         return build_prec(params, symbolic)
     k, pd, td, mode, filt, N = params["k"], params["pd"], params["td"], params["mode"], params["filter"], params["N"]
     twin = params.get("twin")
-    text = grammar_text(k, pd, td)
+    text = grammar_text(k, pd, td, params.get("layout", False))
     calls = []
     rej = int(filt[-1]) if filt.startswith("reject") else None
 
